@@ -140,7 +140,9 @@ func verifBytesEq(a, b []byte) bool {
 // verifTier: 0 = quick, 1 = thorough (a configuration constant, not an input).
 func verifTier() int { return verifTierVal }
 
-func verifRunGoroutines() {}
+// verifRunGoroutines: let spawned goroutines take their turns (engine: queued
+// goroutines run until they block; native: a short sleep).
+func verifRunGoroutines() { time.Sleep(25 * time.Millisecond) }
 
 func verifB2U(b bool) uint64 {
 	return verifIteU64(b, 1, 0)
